@@ -102,7 +102,7 @@ fn c10_strategy_sized(max: usize, nobs: usize, at_max: usize, next_weight: u32) 
           root,
           hots: vec![kind.clone()],
           hot_illformed: false,
-          conn: None, conn_take: None,
+          conn: None, conn_take: None, conn_take_only: None,
           recorders: {
             let mut rs = vec![vec![]; nobs];
             rs[0] = match (nested, &kind) {
